@@ -15,6 +15,7 @@ Template directives (lines starting with `//%%`):
   //%%                                  textual order); regex must match that loop's header text
   //%% @loopbody <k>                    following raw lines = proof block inserted as first statement of
   //%%                                  the k-th loop's body (ghost code only)
+  //%% @loopend <k>                     following raw lines = ghost code inserted last in the k-th loop's body
   //%% @after /<regex>/  (or @before)   following raw lines = ghost code inserted after the UNIQUE line of the (rewritten) body
   //%%                                  that matches the regex (AnchorLost unless exactly one line matches)
   //%% @props C01 C02                   obligations whose failing site is in this function belong to these
@@ -288,6 +289,7 @@ class Block:
         self.entry = []
         self.loops = {}        # k -> (regex, [(tline, text)])
         self.loopbody = {}     # k -> [(tline, text)]  proof block put first in the k-th loop body
+        self.loopend = {}      # k -> [(tline, text)]  proof block put last in the k-th loop body (before its closing brace)
         self.expects = []      # regexes the (whitespace-normalised) item text must match
         self.discard = False   # emit nothing (the block only checks @expect)
         self.afters = []       # (regex, [(tline, text)]): ghost lines inserted after the unique body line matching regex
@@ -400,6 +402,10 @@ def parse_template(path, assumed=False, root=None, includes=None):
                     raise TemplateError('%s:%d bad @after/@before' % (path, i0))
                 cur.afters.append((m.group(2), [], m.group(1)))
                 section = cur.afters[-1][1]
+            elif d.startswith('@loopend '):
+                k = int(d.split()[1])
+                cur.loopend[k] = []
+                section = cur.loopend[k]
             elif d.startswith('@loopbody '):
                 k = int(d.split()[1])
                 cur.loopbody[k] = []
@@ -639,6 +645,10 @@ def generate(template_path, repo_root, unit_name, canary=False):
                     if kidx < 1 or kidx > len(loops):
                         raise AnchorLost('%s::%s loop %d not found (%d loops)' % (b.file, b.name, kidx, len(loops)))
                     inserts.append((loops[kidx - 1][1] + 1, lines, 'loopbody%d' % kidx))
+                for kidx, lines in b.loopend.items():
+                    if kidx < 1 or kidx > len(loops):
+                        raise AnchorLost('%s::%s loop %d not found (%d loops)' % (b.file, b.name, kidx, len(loops)))
+                    inserts.append((match_brace(mbody, loops[kidx - 1][1]), lines, 'loopend%d' % kidx))
                 for ai, (rx, lines, where) in enumerate(b.afters):
                     # ghost code after / before the unique line of the body that matches rx (searched in the comment-preserving text)
                     offs, pos0 = [], 0
